@@ -78,6 +78,7 @@ class Ctx:
         self.consts = {}                          # global const name -> (coq name)
         self.funcs = {}                           # C++ function name -> (coq name, ret type, [param types], outs)
         self.skip_if_contains = spec.get('skip_stmt_containing', [])
+        self.static_classes = spec.get('static_classes', [])  # (additive) classes whose translated methods are static: no `this`
 
     def map_type(self, t):
         b, isref, isptr = strip_type(t)
@@ -1142,7 +1143,7 @@ class FnTr:
         self.ret_ty = self.ctx.map_type(rty)
         env = {}
         plist = []
-        if self.cls:
+        if self.cls and self.cls not in self.ctx.static_classes:
             rec = self.ctx.records.get(self.cls)
             if rec is None:
                 if self.cls == 'Point':
@@ -1501,6 +1502,7 @@ def run_module(spec, mod, repo, outdir, emit=True):
             setattr(ctx, {'records': 'records', 'enum_types': 'enums', 'opaque_calls': 'opaque',
                           'skip_stmt_containing': 'skip_if_contains'}[k], mod[k])
     ctx.skip_pure = mod.get('skip_pure_stmt_containing', [])
+    ctx.static_classes = mod.get('static_classes', ctx.static_classes)
     ctx.opaque = {re.sub(r'\s+', '', k_): v_ for k_, v_ in ctx.opaque.items()}
     out = []
     out.append('(* GENERATED by tools/cpp2v.py from /repo/cola/%s -- do not edit. *)' % mod['file'])
@@ -1625,6 +1627,9 @@ def run_module(spec, mod, repo, outdir, emit=True):
                     if 'nparams' in f and len([c for c in cand['inner'] if c.get('kind') == 'ParmVarDecl']) != f['nparams']:
                         continue
                     if cls is not None and cand.get('kind') != 'CXXMethodDecl':
+                        continue
+                    # (additive) `type_contains`: overload selection by a substring of the function type
+                    if 'type_contains' in f and f['type_contains'] not in qt(cand):
                         continue
                     d = cand
             if d is None:
